@@ -158,7 +158,7 @@ SerdeRel(op, a, r) ==
 \* Integer projections of floating-point results (computed by the recorder in f64 from the native values).
 \* The model knows the exact rational inputs, so it knows which side of each threshold they are on.
 IsIntTup(x, n) == x.t = "Tup" /\ Len(x.c) = n
-ProjOps == {"slerp_proj", "nlerp_proj", "slerp_axis_proj", "look_proj", "unit_roundtrip", "normalize_native", "turn_div_exact", "full_turn_value", "euler_proj"}
+ProjOps == {"slerp_proj", "nlerp_proj", "slerp_axis_proj", "look_proj", "arc_proj", "unit_roundtrip", "normalize_native", "turn_div_exact", "full_turn_value", "euler_proj"}
 ProjRel(op, k, a, r) ==
   LET wide == k = "f32" IN
   CASE op \in {"slerp_proj", "nlerp_proj"} ->
@@ -192,6 +192,18 @@ ProjRel(op, k, a, r) ==
          /\ r.c[3].c[1] <= tol /\ r.c[4].c[1] \in hands            \* dir onto the z axis, with the documented sign
          /\ r.c[5].c[1] <= tol /\ r.c[6].c[1] = 1                 \* up into the half-plane x = 0, y >= 0
          /\ r.c[7].c[1] <= 4 * tol                                \* the eye goes to the origin (Matrix4, Decomposed)
+    \* C15 close to parallel / antiparallel, but further than the tolerated 1e-7 rad (1e-4 rad for from_arc): the rotation
+    \* still takes a onto b.  a = <<T kind, a, n, I table index, B antiparallel?, s1, s2>> with a, n exact orthogonal unit
+    \* vectors (the model checks that premise) and, for from_arc, lengths within [1e-3, 1e3];
+    \* r = <<|r(a) - b| in millionths of the angle, deviation from unit / orthonormal in eps, axis off the normal plane in 1e-9>>
+    [] op = "arc_proj" ->
+         /\ IsIntTup(r, 3)
+         /\ IF Sc(a, 1) = "basis2"
+            THEN Dot(a[2].c, a[2].c) = One
+            ELSE /\ Dot(a[2].c, a[2].c) = One /\ Dot(a[3].c, a[3].c) = One /\ Dot(a[2].c, a[3].c) = Zero
+                 /\ \A i \in {6, 7} : RLe(<<1, 1000>>, Sc(a, i)) /\ RLe(Sc(a, i), <<1000, 1>>)
+         /\ r.c[1].c[1] <= 1000                                    \* r(a) = b to a thousandth of the small angle
+         /\ r.c[2].c[1] <= 64 /\ r.c[3].c[1] <= 1000
     [] op = "unit_roundtrip" -> r.t = "I" /\ r.c[1] <= 4       \* relative error at most 4 machine epsilons   (C13)
     [] op = "normalize_native" -> /\ IsIntTup(r, 4) /\ r.c[1].c[1] = TRUE /\ r.c[2].c[1] = TRUE
                                   /\ r.c[3].c[1] <= (IF wide THEN 20000 ELSE 10) /\ r.c[4].c[1] <= (IF wide THEN 20000 ELSE 10)
